@@ -1,5 +1,7 @@
 import CalVerif.Model.Reader
 import CalVerif.Model.Auto
+import CalVerif.Model.DataConv
+import CalVerif.Props.C05
 /-! # C07 — read calls are pure and the alternative access paths agree
 
     Theorems about the reader state machine of `Model/Reader.lean`. What they carry: the *design*
@@ -221,3 +223,66 @@ example : fromPath (some "XLSX") ⟨false, true, false, false⟩ = .opened .xlsx
 example : byExtension (some "xlam") = some .xlsx := rfl
 
 end Auto
+
+/-! ## the owned path is the borrowed path converted cell by cell, and the conversion loses nothing observable
+
+    `range_ref_owned_agree` above is an identity of the reader model. These theorems are about the conversion itself
+    (`Model/DataConv.lean`: `impl From<DataRef> for Data`, both `impl DataType`, and the range-level map of
+    `worksheet_range`). -/
+
+namespace DataConv
+
+/-- every observation of the `DataType` trait gives the same answer on the owned cell as on the borrowed one
+    (is_*, get_*, as_string, as_i64, as_f64), whatever std and the number parsers compute -/
+theorem view_toData (σ : Std) (v : DataRef) : viewData σ (toData v) = viewRef σ v := by
+  cases v <;> rfl
+
+/-- the conversion identifies exactly `String` and `SharedString` of the same text and nothing else -/
+theorem toData_eq_iff (a b : DataRef) :
+    toData a = toData b ↔
+      a = b ∨ (∃ s, (a = .string s ∧ b = .sharedString s) ∨ (a = .sharedString s ∧ b = .string s)) := by
+  cases a <;> cases b <;> simp [toData] <;> exact eq_comm
+
+/-- an empty borrowed cell is an empty owned cell and conversely (used cells correspond) -/
+theorem toData_empty_iff (v : DataRef) : toData v = .empty ↔ v = .empty := by
+  cases v <;> simp [toData]
+
+/-- `worksheet_range` as a whole: same corners, same size, and at EVERY relative position the owned range holds the
+    conversion of what the borrowed range holds (`None` outside both) -/
+theorem owned_range_cells (r : Range.Rng DataRef) :
+    (toOwnedRange r).start = r.start ∧ (toOwnedRange r).end_ = r.end_ ∧
+    (toOwnedRange r).height = r.height ∧ (toOwnedRange r).width = r.width ∧
+    (∀ i j, Range.get (toOwnedRange r) i j = (Range.get r i j).map toData) ∧
+    (∀ p q, Range.getValue (toOwnedRange r) p q = (Range.getValue r p q).map toData) := by
+  have hl : (toOwnedRange r).inner.length = r.inner.length := by simp [toOwnedRange]
+  have hs : (toOwnedRange r).sr = r.sr ∧ (toOwnedRange r).sc = r.sc ∧ (toOwnedRange r).er = r.er ∧
+      (toOwnedRange r).ec = r.ec := ⟨rfl, rfl, rfl, rfl⟩
+  have hw : (toOwnedRange r).width = r.width := by unfold Range.Rng.width; rw [hl, hs.2.1, hs.2.2.2]
+  have hh : (toOwnedRange r).height = r.height := by unfold Range.Rng.height; rw [hl, hs.1, hs.2.2.1]
+  have hget : ∀ i j, Range.get (toOwnedRange r) i j = (Range.get r i j).map toData := by
+    intro i j
+    unfold Range.get
+    rw [hw, hh]
+    split
+    · rfl
+    · simp [toOwnedRange]
+  refine ⟨?_, ?_, hh, hw, hget, fun p q => ?_⟩
+  · unfold Range.Rng.start; rw [hl]; rfl
+  · unfold Range.Rng.end_; rw [hl]; rfl
+  · unfold Range.getValue
+    rw [hs.1, hs.2.1, hs.2.2.1, hs.2.2.2]
+    split
+    · exact hget _ _
+    · rfl
+
+/-- the invariant of C05 carries over, so everything proved there about rows / cells / accessors holds of the owned
+    range too -/
+theorem owned_range_inv (r : Range.Rng DataRef) (hi : Range.Inv r) : Range.Inv (toOwnedRange r) := by
+  obtain ⟨_, _, hh, hw, _, _⟩ := owned_range_cells r
+  have hl : (toOwnedRange r).inner.length = r.inner.length := by simp [toOwnedRange]
+  exact ⟨by rw [hl, hh, hw]; exact hi.len, fun hne => hi.ord (by rwa [hl] at hne)⟩
+
+example : toData (.sharedString "ab".toList) = .string "ab".toList := rfl
+example : toData (.dateTime ⟨4674916728738455552, false, true⟩) = .dateTime ⟨4674916728738455552, false, true⟩ := rfl
+
+end DataConv
